@@ -281,8 +281,8 @@ def run_property(prop: str, tier: str, seed: int) -> int:
     nviol = len(real)
     if not real and not (proofs_ok and corr_ok):
         # the tie is broken: widen the failing-input search before reporting (DESIGN 6)
-        for k in range(1, 4):
-            wctx = Ctx(prop, "thorough" if k > 1 else tier, seed + 7919 * k, scale=3.0 * k, oracle_only=True)
+        for k, sc in ((1, 3.0), (2, 10.0)):
+            wctx = Ctx(prop, "quick", seed + 7919 * k, scale=sc, oracle_only=True)
             wctx.fixed_witnesses = []
             try:
                 mod.run(wctx)
